@@ -7,7 +7,7 @@ ROOT = os.path.dirname(os.path.dirname(os.path.abspath(__file__)))
 REPO = os.environ.get("VERIF_REGRESS_REPO", "/repo")  # a scratch worktree of /repo when the scratch copy of /verif is used
 SEEDS = os.environ.get("VERIF_REGRESS_SEEDS", os.path.join(ROOT, "seeded"))
 ENV = dict(os.environ, CARGO_NET_OFFLINE="true")
-THOROUGH_ONLY = {"C19-r3-2"}  # needs the release-profile build, which only the thorough tier makes
+THOROUGH_ONLY = {"C19-r3-2", "C02-r6-2"}  # needs the release-profile build, which only the thorough tier makes
 
 
 def sh(cmd, cwd=None, timeout=3000):
